@@ -64,6 +64,12 @@ CLAIMED["C03"] = dict(
     technique="Lean 4 exact-acceptance and outright-rejection theorems + reduction to a named MD5 collision; exhaustive bit-flip/truncation sweep",
     note="Tamper-evidence against an adversary who knows the fixed key is outside the property (a re-signed packet is not an alteration of an authentic one; see C09).")
 
+CLAIMED["C04"] = dict(
+    text="Theorems (Lean 4, unbounded): prefix stability of the data_received loop (what has been queued from a prefix of the stream stays queued and the rest is processed from the left-over buffer), hence for ANY number of cuts - single bytes to many packets per segment - the successive calls queue exactly what one call with the whole stream queues and leave the same buffer; for any marker-free garbage prefix (incl. one ending in 0x83), any list of well-formed packets with arbitrary payloads (embedded markers included) and any proper prefix of a further packet, exactly the complete packets are queued - once, whole, in order - and the unfinished one is kept: a packet is queued by the call that carries its last byte, not earlier and not later. The loop's termination proof (each continuing iteration removes >= 8 bytes) is itself an obligation. Tie: real _LanProtocolV3.data_received (queue drained after each call) vs the model on ALL segmentations with <= 3 cuts of streams of 1..4 packets up to 48 bytes (~90k cases/run), byte-by-byte and random many-cut segmentations, garbage prefixes; plus real LAN.send on the virtual-time loop with the simulated device's reply delivered in chosen segments (return time = time of the segment carrying the last byte).",
+    design="DESIGN.md §6 C04",
+    technique="Lean 4 prefix-stability theorem by strong induction + stream characterisation; exhaustive <=3-cut differential correspondence",
+    note="Trusted: asyncio calls data_received once per segment and wakes the reader in the same loop iteration (observed on the virtual loop, not proved).")
+
 NOT_YET = {
 }
 
